@@ -195,7 +195,7 @@ func TestVerifC16Dispose(t *testing.T) {
 	r := run.Rand("trials")
 	n := run.Pick(12000, 200000)
 	kinds := []string{"Dispose", "ResourceBase", "ManagerBase", "ServiceBase", "ResourceManager", "nested"}
-	paths := []string{"plain", "parent-cancel", "add-handler", "handler-error"}
+	paths := []string{"plain", "parent-cancel", "add-handler", "handler-error", "slow-handler"}
 	ks := []int{2, 4, 12}
 	for _, kd := range kinds {
 		run.Floor("overlap_runs_"+kd, 100)
@@ -203,6 +203,9 @@ func TestVerifC16Dispose(t *testing.T) {
 	for _, f := range []string{"lower", "mixed-case", "padded", "unicode", "empty", "long"} {
 		run.Floor("manager_held_family_"+f, 50)
 	}
+	run.Floor("slow_handler_trials_all_closers_waited_for_cleanup", 100)
+	run.Floor("dispose_with_timeout_timed_out", 30)
+	c16TimeoutPhase(run, r)
 	for trial := 0; trial < n && run.Violations() < 20 && run.Counter("leak_violations") < 3; trial++ {
 		kind := kinds[trial%len(kinds)]
 		path := paths[r.Intn(len(paths))]
@@ -251,6 +254,44 @@ func c16TrialPlain(run *vk.Run, kind, path string, k, h, failPick, pickBits int,
 	for i := 0; i < k; i++ {
 		fns = append(fns, d.closeFns[(pickBits+i)%len(d.closeFns)])
 	}
+	// slow-handler: one more cleanup handler that is held at a gate (a slow flush / remote
+	// update). Whatever Close promises must hold for EVERY caller when its Close returns,
+	// so no Close call may return while that handler is still running. The gate is opened
+	// after the handler was entered and a seeded number of scheduler yields has passed (or
+	// all other closers have already come back).
+	var slowEntered, slowFinished atomic.Bool
+	var slowReturned, slowEarly atomic.Int32
+	var othersWaited atomic.Bool
+	slowGate := make(chan struct{})
+	releaserDone := make(chan struct{})
+	if path == "slow-handler" {
+		d.add(func() error { slowEntered.Store(true); <-slowGate; slowFinished.Store(true); return nil })
+		for i := 0; i < k; i++ {
+			f := fns[i]
+			fns[i] = func() {
+				f()
+				if !slowFinished.Load() {
+					slowEarly.Add(1)
+				}
+				slowReturned.Add(1)
+			}
+		}
+		yields := 200 + pickBits*120
+		go func() {
+			defer close(releaserDone)
+			dl := time.Now().Add(10 * time.Second)
+			for !slowEntered.Load() && time.Now().Before(dl) {
+				runtime.Gosched()
+			}
+			for y := 0; y < yields && int(slowReturned.Load()) < k-1; y++ {
+				runtime.Gosched()
+			}
+			othersWaited.Store(slowReturned.Load() == 0)
+			close(slowGate)
+		}()
+	} else {
+		close(releaserDone)
+	}
 	switch path {
 	case "parent-cancel":
 		fns = append(fns, func() { d.parent() })
@@ -260,6 +301,17 @@ func c16TrialPlain(run *vk.Run, kind, path string, k, h, failPick, pickBits int,
 	maxIn, ok := c16RunRace(fns, spins)
 	if !c16Overlap(run, kind, path, k, maxIn, ok) {
 		return
+	}
+	<-releaserDone
+	if path == "slow-handler" {
+		run.Count("slow_handler_trials", 1)
+		if othersWaited.Load() {
+			run.Count("slow_handler_trials_all_closers_waited_for_cleanup", 1)
+		}
+		if e := slowEarly.Load(); e > 0 {
+			run.Violation(fmt.Sprintf("C16:dispose|%s|close-returned-before-cleanup-finished", kind),
+				map[string]any{"case": desc, "closers_that_returned_while_a_cleanup_handler_was_still_running": e})
+		}
 	}
 	c16Judge(run, d, path, k, &late, desc, "after-close")
 	// every public method once more, under recover; counts must not move
@@ -473,5 +525,93 @@ func c16TrialNested(run *vk.Run, k int, spins []int, path string, desc map[strin
 	}
 	if !child.IsClosed() || !parent.IsClosed() {
 		run.Violation("C16:dispose|nested|not-closed-after-close", map[string]any{"case": desc})
+	}
+}
+
+type c16GatedRes struct {
+	gate chan struct{}
+	runs atomic.Int32
+}
+
+func (g *c16GatedRes) Dispose() error { g.runs.Add(1); <-g.gate; return nil }
+
+// c16TimeoutPhase: ResourceManager.DisposeWithTimeout with a resource whose Dispose takes
+// longer than the (1-5 ms) timeout: the call reports the timeout; when the slow disposal
+// is finally released, every resource was disposed exactly once and nothing of the manager
+// is left running (goroutine diff).
+func c16TimeoutPhase(run *vk.Run, r *rand.Rand) {
+	const trials = 60
+	snap := vk.SnapshotGoroutines()
+	type rec struct {
+		slow  *c16GatedRes
+		fast  []*c16MRes
+		desc  map[string]any
+		timed bool
+	}
+	var recs []rec
+	for i := 0; i < trials; i++ {
+		rm := NewResourceManager()
+		rc := rec{slow: &c16GatedRes{gate: make(chan struct{})}}
+		nFast := r.Intn(3)
+		pos := r.Intn(nFast + 1)
+		for j := 0; j <= nFast; j++ {
+			if j == pos {
+				_ = rm.Register("Slow Resource", rc.slow)
+				continue
+			}
+			f := &c16MRes{family: "lower", name: fmt.Sprintf("fast-%d", j)}
+			rc.fast = append(rc.fast, f)
+			_ = rm.Register(f.name, f)
+		}
+		timeout := time.Duration(1+r.Intn(5)) * time.Millisecond
+		callers := 1 + r.Intn(3)
+		rc.desc = map[string]any{"timeout_phase_trial": i, "timeout": timeout.String(), "fast_resources": nFast, "slow_position": pos, "concurrent_callers": callers}
+		run.Eval(1)
+		results := make(chan *DisposeResult, callers)
+		for c := 0; c < callers; c++ {
+			go func() { results <- rm.DisposeWithTimeout(timeout) }()
+		}
+		for c := 0; c < callers; c++ {
+			select {
+			case res := <-results:
+				if res != nil && res.HasErrors() && res.Errors[0].ResourceName == "timeout" {
+					rc.timed = true
+				}
+			case <-time.After(20 * time.Second):
+				run.Count("watchdog", 1)
+			}
+		}
+		if rc.timed {
+			run.Count("dispose_with_timeout_timed_out", 1)
+		}
+		run.Distinct(fmt.Sprintf("timeout-phase|fast=%d|pos=%d|callers=%d|timed=%v", nFast, pos, callers, rc.timed))
+		recs = append(recs, rc)
+	}
+	// the slow disposals finally finish
+	for _, rc := range recs {
+		close(rc.slow.gate)
+	}
+	if l := snap.Leaked([]string{"tunnox-core/internal/core/dispose"}, nil, 2*time.Second); len(l) > 0 {
+		fn := "?"
+		for _, line := range strings.Split(l[0].Stack, "\n") {
+			if strings.HasPrefix(line, "tunnox-core/") && !strings.Contains(line, "c16") {
+				fn = line
+				if i := strings.LastIndex(fn, "("); i > 0 {
+					fn = fn[:i]
+				}
+			}
+		}
+		run.Violation("C16:dispose|ResourceManager|goroutine-left-after-timed-out-dispose|"+fn, map[string]any{"leaked": len(l), "frames": vk.FrameSummary(l), "stack": l[0].Stack, "sample_case": recs[0].desc})
+		run.Count("leak_violations", 1)
+	}
+	for _, rc := range recs {
+		if got := rc.slow.runs.Load(); got != 1 {
+			run.Violation(fmt.Sprintf("C16:dispose|ResourceManager|timed-out-dispose|slow-resource-runs=%d", got), map[string]any{"case": rc.desc})
+		}
+		for _, f := range rc.fast {
+			if got := f.runs.Load(); got != 1 {
+				run.Violation(fmt.Sprintf("C16:dispose|ResourceManager|timed-out-dispose|resource-runs=%d", got), map[string]any{"case": rc.desc, "resource": f.name})
+			}
+		}
 	}
 }
